@@ -287,7 +287,10 @@ Definition is_int_literal (e : expr) : bool := match e with EInt _ => true | _ =
 Definition stringify_operand (e : expr) (operator : string) : string :=
   if (String.eqb operator "." && is_int_literal e)%bool then "(" ++ stringify e ++ ")"     (* `1.real` is a syntax error *)
   else match stringify_ (S (expr_depth e)) e with
-       | Some s => wrap e (operand_precedence operator) s
+       | Some s =>
+           let t := wrap e (operand_precedence operator) s in
+           (* in an f-string field a leading brace would read as an escaped brace *)
+           if (String.eqb operator "{}" && starts_with_brace t)%bool then " " ++ t else t
        | None => "x"
        end.
 
@@ -295,9 +298,17 @@ Definition stringify_operand (e : expr) (operator : string) : string :=
    place it is pasted into *)
 Lemma stringify_operand_wraps (e : expr) (operator s : string) :
   stringify_ (S (expr_depth e)) e = Some s -> (String.eqb operator "." && is_int_literal e)%bool = false ->
+  String.eqb operator "{}" = false ->
   stringify e = s /\
   stringify_operand e operator = (if Nat.ltb (precedence e) (operand_precedence operator) then "(" ++ s ++ ")" else s)%string.
-Proof. intros H Hi. unfold stringify_operand. rewrite Hi. unfold stringify, wrap. rewrite H. split; reflexivity. Qed.
+Proof. intros H Hi Hb. unfold stringify_operand. rewrite Hi, Hb. unfold stringify, wrap. rewrite H. split; reflexivity. Qed.
+
+(* in an f-string field: the same, with a space in front when the text would otherwise start with a brace *)
+Lemma stringify_operand_field (e : expr) (s : string) :
+  stringify_ (S (expr_depth e)) e = Some s ->
+  let t := (if Nat.ltb (precedence e) 3 then "(" ++ s ++ ")" else s)%string in
+  stringify_operand e "{}" = (if starts_with_brace t then " " ++ t else t)%string.
+Proof. intros H. unfold stringify_operand. cbn [String.eqb Ascii.eqb Bool.eqb andb]. rewrite H. reflexivity. Qed.
 
 Lemma int_literal_is_atom e : is_int_literal e = true -> precedence e = atom_precedence.
 Proof. destruct e; try discriminate. reflexivity. Qed.
@@ -311,18 +322,18 @@ Proof.
   intros H Hp.
   assert (Hi : (String.eqb "." "." && is_int_literal e)%bool = false).
   { destruct (is_int_literal e) eqn:E; [|reflexivity]. apply int_literal_is_atom in E. lia. }
-  destruct (stringify_operand_wraps e "." s H Hi) as [_ ->].
+  destruct (stringify_operand_wraps e "." s H Hi eq_refl) as [_ ->].
   change (operand_precedence ".") with atom_precedence. apply Nat.ltb_lt in Hp. now rewrite Hp.
 Qed.
 
 Lemma loose_operand_always_wrapped (e : expr) (operator s : string) :
-  stringify_ (S (expr_depth e)) e = Some s -> precedence e <= 2 ->
+  stringify_ (S (expr_depth e)) e = Some s -> precedence e <= 2 -> String.eqb operator "{}" = false ->
   stringify_operand e operator = ("(" ++ s ++ ")")%string.
 Proof.
-  intros H Hp.
+  intros H Hp Hb.
   assert (Hi : (String.eqb operator "." && is_int_literal e)%bool = false).
   { destruct (is_int_literal e) eqn:E; [|apply andb_false_r]. apply int_literal_is_atom in E. unfold atom_precedence in E. lia. }
-  destruct (stringify_operand_wraps e operator s H Hi) as [_ ->].
+  destruct (stringify_operand_wraps e operator s H Hi Hb) as [_ ->].
   assert (3 <= operand_precedence operator).
   { unfold operand_precedence, atom_precedence.
     destruct (String.eqb operator ".") eqn:E1; [lia|].
